@@ -39,6 +39,14 @@ def main():
                {"last_case": R.last_key})
     except Exception as e:  # a crash of the harness is a red check, never a silent pass
         import traceback
+        vlib.watch_disarm()
+        frames = traceback.extract_tb(e.__traceback__)
+        in_impl = [f for f in frames if os.path.realpath(f.filename).startswith(os.path.realpath(vlib.REPO) + os.sep)]
+        if in_impl and R.last_key is not None:
+            # the exception came out of the implementation, on a call the harness did not expect to fail: a finding, with the last
+            # case announced (R.case / R.tick) as its replay
+            R.fail("implementation-exception", f"an implementation call raised {type(e).__name__}: {str(e)[:200]} "
+                   f"(at {os.path.relpath(in_impl[-1].filename, vlib.REPO)}:{in_impl[-1].lineno} in {in_impl[-1].name})", {"last_case": R.last_key})
         R.red.append("harness: " + "".join(traceback.format_exception_only(type(e), e)).strip()[:500])
         traceback.print_exc()
     sys.exit(R.finish())
